@@ -14,6 +14,9 @@ use std::sync::Arc;
 use camino::Utf8Path;
 use log::info;
 
+// The cluster index is stored on 20 bits in a ContentInfo.
+const MAX_CLUSTERS_PER_PACK: u32 = 1 << 20;
+
 fn shannon_entropy(data: &[u8]) -> f32 {
     let mut entropy = 0.0;
     let mut counts = [0; 256];
@@ -155,6 +158,10 @@ impl<O: PackRecipient + 'static + ?Sized> ContentPackCreator<O> {
 
     fn open_cluster(&self, compressed: bool) -> ClusterCreator {
         let cluster_id = self.next_cluster_id.replace(self.next_cluster_id.get() + 1);
+        assert!(
+            cluster_id < MAX_CLUSTERS_PER_PACK,
+            "A content pack cannot hold more than 1048576 clusters"
+        );
         self.progress.new_cluster(cluster_id, compressed);
         ClusterCreator::new(cluster_id.into(), compressed)
     }
